@@ -105,7 +105,25 @@ def gen_case(rng):
             events.append({"op": "pull", "t": tt})
             if pubs[0] <= tt <= pubs[-1]:
                 last_req = tt
-    return {"grid": g, "out_units": ou, "in_units": iu, "events": events}
+    case = {"grid": g, "out_units": ou, "in_units": iu, "events": events}
+    if rng.random() < 0.25:
+        # the output spills to disk beyond k payloads (C10 owns transparency; here: what the link refuses / serves)
+        case["mem_limit_payloads"] = rng.choice([0, 1, 1, 2])
+    return case
+
+
+_SCRATCH = []
+
+
+def _scratch():
+    import atexit, shutil, tempfile, os
+    if not _SCRATCH:
+        base = os.path.join(common.VERIF, ".scratch")
+        os.makedirs(base, exist_ok=True)
+        d = tempfile.mkdtemp(prefix="C08-", dir=base)
+        _SCRATCH.append(d)
+        atexit.register(lambda: shutil.rmtree(d, ignore_errors=True))
+    return _SCRATCH[0]
 
 
 def payload(case, ev, prev_arr):
@@ -174,9 +192,18 @@ def run_impl(case):
     prev_arr = None
     prev_buf = None
     buf = 0
+    if case.get("mem_limit_payloads") is not None:
+        shp = grid_shape(case["grid"])
+        out.memory_limit = case["mem_limit_payloads"] * 8 * int(np.prod(shp)) if shp else case["mem_limit_payloads"] * 8
+        out.memory_location = _scratch()
     for ev in case["events"]:
         if ev["op"] == "push":
-            obj, arr, desc, shared = payload(case, ev, prev_arr)
+            prev_in_ram = bool(out.data) and not isinstance(out.data[-1][1], str)
+            eff = ev
+            if ev["form"] in ("shared", "sharedview") and out.data and not prev_in_ram:
+                # the previous publication lives in a file: there is nothing in memory to alias; publish a fresh array
+                eff = dict(ev, form="shaped")
+            obj, arr, desc, shared = payload(case, eff, prev_arr)
             if shared:
                 this_buf = prev_buf
             else:
@@ -186,17 +213,15 @@ def run_impl(case):
                             "units": desc["units"], "buf": this_buf})
             try:
                 out.push_data(obj, T(ev["t"]))
-                results.append({"ok": None})
+                results.append({"ok": None, "prev_in_ram": prev_in_ram, "eff": eff})
                 prev_buf = this_buf
-                prev_arr = arr if isinstance(arr, np.ndarray) and ev["form"] not in ("list", "foreign") else None
-                if ev["form"] == "foreign" and not fm.data.tools.equivalent_units(ev["punits"], case["out_units"]):
+                prev_arr = arr if isinstance(arr, np.ndarray) and eff["form"] not in ("list", "foreign") else None
+                if eff["form"] == "foreign" and not fm.data.tools.equivalent_units(eff["punits"], case["out_units"]):
                     prev_arr = None
-                elif ev["form"] == "foreign":
+                elif eff["form"] == "foreign":
                     prev_arr = arr
             except Exception as e:  # noqa
-                results.append({"err": err_class(e), "msg": str(e)[:120]})
-                if shared:
-                    pass
+                results.append({"err": err_class(e), "msg": str(e)[:120], "prev_in_ram": prev_in_ram, "eff": eff})
         else:
             mevents.append({"op": "pull", "t": ev["t"]})
             try:
@@ -206,6 +231,10 @@ def run_impl(case):
                                        "units": str(v.units)}})
             except Exception as e:  # noqa
                 results.append({"err": err_class(e), "msg": str(e)[:120]})
+    try:
+        out.finalize()
+    except Exception:  # noqa
+        pass
     return results, mevents, None
 
 
@@ -237,6 +266,7 @@ def oracle(case, impl):
     dim_ok = UNITS[case["out_units"]][0] == UNITS[case["in_units"]][0]
     for ev, r in zip(case["events"], impl):
         if ev["op"] == "push":
+            ev = r.get("eff", ev)
             form = ev["form"]
             if "ok" in r:
                 if form in ("wrongsize", "wrongshape", "incompatible"):
@@ -295,7 +325,9 @@ def oracle(case, impl):
     for ev, r in zip(case["events"], impl):
         if ev["op"] != "push":
             continue
-        if ev["form"] in ("shared", "sharedview") and prev_ok in ("shaped", "timeaxis", "flat", "quantity", "shared", "sharedview"):
+        ev = r.get("eff", ev)
+        if ev["form"] in ("shared", "sharedview") and prev_ok in ("shaped", "timeaxis", "flat", "quantity", "shared", "sharedview") \
+                and r.get("prev_in_ram", True):
             if "ok" in r:
                 return ("publishing an array that shares memory with the previous publication is refused",
                         {"event": ev, "got": r})
